@@ -1308,6 +1308,42 @@ func (g0 *genEnv) genOne(t *rapid.T) Case {
 	case 7:
 		c.Body = respellEntities(c.Body, 2)
 	}
+	// end-of-file dimension: what the last line of the file is, and whether a newline follows it.
+	// Shapes: front matter only (empty body), just the two delimiters, an empty front-matter block
+	// before a body of one line, a body of exactly one line, or the drawn file as it is; then the
+	// file ends without a newline, with one, or with a blank line. (Line endings are still "\n"
+	// here; the CR / CRLF dimensions below apply on top.)
+	if g.chance("eof", 4) {
+		oneLine := []string{"<p>hello</p>", "hello", "{{ title }}", "<hr>", "<!-- note -->", "<span>a</span> b", "<div></div>", "<p>a &amp; b</p>", "<ul><li>x</li></ul>"}
+		shape := g.n("eofshape", 0, 6)
+		if shape <= 3 {
+			c.Doc, c.Doctype, c.Ctx, c.Long = false, "", "", 0
+		}
+		switch shape {
+		case 0: // front matter only
+			if c.FrontMatter == "" {
+				c.FrontMatter = g.frontMatter()
+			}
+			c.Gap, c.Body = "", ""
+		case 1: // the two delimiters and nothing else
+			c.FrontMatter, c.Gap, c.Body = "---\n---\n", "", ""
+		case 2: // empty front-matter block, body of one line
+			c.FrontMatter, c.Gap, c.Body = "---\n---\n", "", g.pick("eofline", oneLine)
+		case 3: // body of exactly one line
+			c.Body = g.pick("eofline", oneLine)
+		}
+		tail := g.pick("eoftail", []string{"", "", "", "\n", "\n\n"})
+		if c.Body != "" {
+			c.Body = strings.TrimRight(c.Body, "\n") + tail
+		} else {
+			// the closing delimiter is the last line; a blank line after it is not part of the block
+			c.FrontMatter = strings.TrimRight(c.FrontMatter, "\n")
+			if tail != "" {
+				c.FrontMatter += "\n"
+				c.Gap = tail[1:]
+			}
+		}
+	}
 	switch {
 	case c.FrontMatter == "" && !c.Doc && c.Ctx == "" && g.chance("bom", 30):
 		c.Body = "\uFEFF" + c.Body
